@@ -21,7 +21,7 @@ RULE = ("cases = (script, silent in {True, False}, mode): supported statement mi
         "skipped in both settings; corpus scripts for the silent/loud agreement; unknown output_mode strings (near-misses such as "
         "'SQL', 'hql ', 'postgresql', '') . Non-trivial = a script containing at least one unsupported statement or an unknown mode; "
         "distinct = distinct (script, mode)."
-        " Added after seeded defects: stray-semicolon family, unterminated ignored lines at every gap, the silent/loud pair through parse_from_file(parser_settings); silent=False combined with debug / normalize_names; valid modes must be named as whole words.") % len(GS.all_kinds())
+        " Added after seeded defects: stray-semicolon family, unterminated ignored lines at every gap, the silent/loud pair through parse_from_file(parser_settings); silent=False combined with debug / normalize_names; valid modes must be named as whole words; supported scripts with comments of every style (C08's generator): loud == silent.") % len(GS.all_kinds())
 ASSUMPTIONS = ["'supported' = scripts of the modelled generators; 'unsupported' = the calibrated catalogue (each entry raises when loud and yields [] when silent on the pinned tree)",
                "lines starting with GO / USE / INSERT / GRANT / DELETE are documented as ignored by the pre-processor, so they raise in neither setting"]
 MIN_EVENTS = {"run_call": 500}
@@ -176,8 +176,31 @@ def check_case(ctx, case):
         check_corpus(ctx, case)
     elif g == "unknown_mode":
         check_unknown_mode(ctx, case)
+    elif g == "commented":
+        check_commented(ctx, case)
     else:
         check_mixed(ctx, case)
+
+
+def check_commented(ctx, case):
+    """supported statements with comments of every style around and inside them: comments are not statements, so silent=False must return
+    exactly what silent=True returns"""
+    ctx.evaluated(2)
+    base, text = case["base_text"], case["ddl"]
+    lb = run(base, False)
+    if lb[0] != "ok":
+        ctx.obs["commented_base_raises_skipped"] += 1
+        return
+    q = run(text, True)
+    l = run(text, False)
+    ctx.obs["commented_pairs"] += 1
+    ctx.nontrivial_case(digest("commented|" + text))
+    if q[0] != "ok":
+        return            # a comment that damages the statement is C08's subject
+    if l[0] != "ok":
+        ctx.violation("commented_supported_script_raises_when_loud", case, {"exception": l[1], "message": l[3], "silent_result_entities": len(q[1])})
+    elif l[1] != q[1]:
+        ctx.violation("loud_differs_from_silent", case, {"diffs": [(p, short(x, 120), short(y, 120)) for p, x, y in ddiff(l[1], q[1])[:4]]})
 
 
 def run_shard(ctx):
@@ -185,6 +208,10 @@ def run_shard(ctx):
     kinds = GS.all_kinds()
     uns = G.all_unsupported()
     i = 0
+    from vf.checks import c08
+    for j in range(ctx.budget(160, 4000)):
+        cc = c08.random_case(rng)
+        check_case(ctx, {"gen": "commented", "base_text": "\n".join(cc["base"]) + "\n", "ddl": "\n".join(cc["lines"]) + "\n"})
     # every catalogue entry: alone, and before / between / after two neighbours
     for fam, u in uns:
         for variant in range(4):
